@@ -55,7 +55,7 @@ PLAN = {
         'note': COMMON_TRUST + 'layout_get_value(_numpad) are proved in unit layout_get against the String-keyed view of the real map (entry Key_<name>_<plane> / <name>, empty = none, key pad only with the option on); only std format! + `impl Display for LayoutModifiers` ("Normal" / "AltGr") stay T3, covered by the exhaustive bounded check layout_values; the transcription of riti.h macro names into entry names is hand-written (tools/gen_keytable.py); Config::get_layout and serde_json::from_value are T3 (the file content is the environment\'s); the bounded check update_engine also flips the number-pad option on a live context.',
     },
     'C05': {
-        'bounded': ['history_independence'], 'static': ['no_shared_state'],
+        'bounded': ['history_independence', 'learn_recall'], 'static': ['no_shared_state'],
         'level': 'proof',
         'units': ['phon', 'pmeth', 'split'],
         'technique': 'Verus: memo invariants (transparent, keys split-stable, prefixes memoised) + spec-level lemma list == ph_list_text(text, ...) independent of the memo',
@@ -73,7 +73,7 @@ PLAN = {
     'C07': {
         'bounded': ['phonetic_api', 'history_independence'], 'data': ['tables'],
         'level': 'proof',
-        'units': ['rank', 'util', 'phon'],
+        'units': ['rank', 'util', 'phon', 'pmeth'],
         'technique': 'Verus: Rank::cmp == rank_cmp (class, number); assembly postcondition of suggest; push_checked duplicate-freedom at ranked-value level',
         'claim': 'Proof that the comparator is the documented order, that candidate ranks are First(auto-correct, user entry first), Other(10*distance), Last(transliteration,2), Last(English,3), that the list handed to the sort is exactly that assembly with text-duplicates suppressed by push_checked, and that the result is the (assumed stable) sort of it.  Statement clauses at spec level (lemma_c07_list over the sorted assembly): the auto-correct entry, when one exists, is first; direct and suffix-built dictionary words appear in non-decreasing rank number (10 x the distance recorded by the search, inherited by suffix-built forms); the transliteration, unless already present, follows every dictionary word; raw English is last; an emoji (numbers 1..9) never precedes a dictionary word of distance 0; no text occurs twice.',
         'note': COMMON_TRUST + 'Sortedness rests on one axiom about std sort (stable, sorted w.r.t. the proved comparator key) + data preconditions: emoji numbers 1..9, distances <= 25; that the number recorded by the dictionary search IS the edit distance is T2 (include_from_dictionary), checked by the bounded list oracle in phonetic_api / history_independence (distance and dictionary membership recomputed).',
